@@ -369,7 +369,12 @@ impl Neg for Duration {
             match NANOSECONDS_PER_CENTURY.checked_sub(self.nanoseconds) {
                 Some(nanoseconds) => {
                     // yay
-                    Self::from_parts(-self.centuries - 1, nanoseconds)
+                    match self.centuries.checked_neg() {
+                        Some(centuries) => Self::from_parts(centuries - 1, nanoseconds),
+                        // Only the most negative century cannot be negated on 16 bits, and its
+                        // opposite minus one is the largest century.
+                        None => Self::from_parts(i16::MAX, nanoseconds),
+                    }
                 }
                 None => {
                     if self > Duration::ZERO {
